@@ -237,7 +237,7 @@ func RunHistoriesWith(e *hx.Env, prop, tag string, n int, gen Generator, mon plu
 	ts := make([]*plugin.Transcript, n)
 	errs := make([]error, n)
 	var wg sync.WaitGroup
-	sem := make(chan struct{}, 32)
+	sem := make(chan struct{}, 256) // sleep-bound: a Bind answered Conflict sits out the 3 s retry loop of the real code
 	for i := 0; i < n; i++ {
 		wg.Add(1)
 		sem <- struct{}{}
